@@ -516,7 +516,16 @@ fn index_set(mut left: Object, index: Object, value: Object) -> Result<Object, E
     }
     match left.tag() {
         Type::Array => index_set_array(left.as_vec_mut(), index.as_int(), value)?,
-        Type::String => index_set_string(left.as_string_mut(), index.as_int(), value)?,
+        Type::String => {
+            // Copy the new text first: `value` may be the very string that is modified (`s[0] = s`),
+            // in which case it must not be read while it is being changed.
+            let replacement = if value.tag() == Type::String {
+                Some(value.as_str().to_owned())
+            } else {
+                None
+            };
+            index_set_string(left.as_string_mut(), index.as_int(), replacement)?
+        }
         _ => {
             return Err(Error::TypeError(format!(
                 "kan niet indexeren in objecten van type {}",
@@ -542,7 +551,11 @@ fn index_set_array(array: &mut Vec<Object>, mut index: isize, value: Object) -> 
     Ok(())
 }
 
-fn index_set_string(string: &mut String, mut index: isize, value: Object) -> Result<(), Error> {
+fn index_set_string(
+    string: &mut String,
+    mut index: isize,
+    value: Option<String>,
+) -> Result<(), Error> {
     let strlen = string.chars().count();
     if index < 0 {
         index += strlen as isize;
@@ -554,11 +567,14 @@ fn index_set_string(string: &mut String, mut index: isize, value: Object) -> Res
         ));
     }
 
-    if value.tag() != Type::String {
-        return Err(Error::TypeError(
-            "kan geen niet-string invoegen op string object".to_string(),
-        ));
-    }
+    let value = match value {
+        Some(value) => value,
+        None => {
+            return Err(Error::TypeError(
+                "kan geen niet-string invoegen op string object".to_string(),
+            ))
+        }
+    };
 
     string.replace_range(
         string
